@@ -213,38 +213,46 @@ def check_handler(chk, repo, f, t, h, rid, expect_slot=None):
 
 
 def pool_copy_before_write(chk, repo, rid):
-    """shared (C07.c, C01.j): the per-fusion pool of the wrapper is a copy, and the donor series is copied before it is truncated"""
+    """shared (C07.c, C01.j): the per-fusion pool of the wrapper is a copy, and the donor series is copied before it is truncated.
+    Names are discovered: P = locals bound to copy.copy(pool)."""
+    from sa import sem
     w = repo.func(WRAPPER)
     chk.uses(w)
-    # copy-before-write on variant_pool
-    vp_writes = [wr for wr in G.writes_in(w.node.body) if wr[0] == 'variant_pool' and wr[1] in ('attr', 'item')]
-    for wr in vp_writes:
-        st = wr[2]
-        tgt = unparse(st.targets[0])
-        ok = True
-        detail = ''
-        if tgt.startswith('variant_pool[') and tgt.endswith(']'):
-            ok = unparse(st.value).startswith('copy.copy(')
+    nw = sem.nf(repo, w)
+    chains = sem.block_chains(nw)
+    P = {unparse(a.targets[0]) for a in ast.walk(nw) if isinstance(a, ast.Assign) and len(a.targets) == 1 and isinstance(a.targets[0], ast.Name)
+         and unparse(a.value) == 'copy.copy(pool)'}
+    n = 0
+    for st in [x for x in ast.walk(nw) if isinstance(x, (ast.Assign, ast.AugAssign))]:
+        tg = st.targets[0] if isinstance(st, ast.Assign) else st.target
+        base = tg
+        while isinstance(base, (ast.Attribute, ast.Subscript)):
+            base = base.value
+        if not isinstance(base, ast.Name) or base.id not in (P | {'pool'}) or tg is base:
+            continue
+        n += 1
+        tgt = unparse(tg)
+        if base.id == 'pool':
+            chk.ob(rid, f"copy-before-write: {norm_stmt(st)[:60]}", w.where, False,
+                   f"'{norm_stmt(st)}' writes into the shared variant pool of the transcript (visible to later units / retries)",
+                   key=f"{WRAPPER}::copy-before-write::{tgt}", fn=w.qual)
+            continue
+        if isinstance(tg, ast.Subscript) and isinstance(tg.value, ast.Name):
+            ok = isinstance(st, ast.Assign) and unparse(st.value).startswith('copy.copy(')
             detail = f"'{norm_stmt(st)}' stores a shared series into the pool copy without copying it"
         else:
-            # attribute write on variant_pool[k].x : must be preceded in the block by variant_pool[k] = copy.copy(...)
-            blk = None
-            for anc in repo.ancestors(st):
-                for fld in ('body', 'orelse'):
-                    b = getattr(anc, fld, None)
-                    if isinstance(b, list) and st in b:
-                        blk = b
-                if blk:
-                    break
-            sub = tgt.rsplit('.', 1)[0]
-            prior = [s for s in blk[:blk.index(st)] if isinstance(s, ast.Assign) and unparse(s.targets[0]) == sub
-                     and unparse(s.value).startswith('copy.copy(')]
-            pool_copy = [s for s in blk[:blk.index(st)] if isinstance(s, ast.Assign) and unparse(s.targets[0]) == 'variant_pool'
-                         and unparse(s.value) == 'copy.copy(pool)']
-            ok = bool(prior) and bool(pool_copy)
-            detail = f"'{norm_stmt(st)}' writes through the shared pool (no copy.copy of the pool and of the series before it)"
-        chk.ob(rid, f"copy-before-write: {norm_stmt(st)[:60]}", repo.loc(w, st), ok, detail,
-               key=f"{WRAPPER}::copy-before-write::{tgt}", fn=w.qual)
+            # attribute write on P[k].x: P[k] must have been re-bound to a copy before (nearest store of P[k] is a copy.copy)
+            sub = tg
+            while isinstance(sub, ast.Attribute):
+                sub = sub.value
+            prev = sem.nearest_store(nw, st, unparse(sub), chains)
+            ok = prev is not None and unparse(prev).startswith('copy.copy(')
+            detail = f"'{norm_stmt(st)}' writes through the shared series (no `{unparse(sub)} = copy.copy(...)` before it): the truncation of the donor series " \
+                     "for one fusion is seen by every later unit of the transcript"
+        chk.ob(rid, f"copy-before-write: {norm_stmt(st)[:60]}", w.where, ok, detail,
+               key=f"{WRAPPER}::copy-before-write::{re.sub(r'^' + re.escape(base.id), 'variant_pool', tgt)}", fn=w.qual)
+    chk.ob(rid, 'the per-fusion pool is a copy of the transcript pool', w.where, bool(P) and n >= 1,
+           f"no local bound to copy.copy(pool) is written ({sorted(P)}, {n} writes)", key=f"{WRAPPER}::copy-before-write::pool-copy", fn=w.qual)
 
 
 def run(chk, repo):
